@@ -651,6 +651,10 @@ func c19Targets() []c19Target {
 			}
 			err := kp.UnmarshalBinary(b)
 			enc := mustMarshal(kp.MarshalBinary())
+			// the receiver held another pair before: whatever the outcome, its two halves go together
+			if (kp.SecretKey() == nil) != (kp.PublicKey() == nil) {
+				return c19Res{ok: err == nil, bad: fmt.Sprintf("after UnmarshalBinary (err=%v) into a receiver that held another key pair, exactly one of SecretKey() / PublicKey() is nil: half of the previous pair is left behind", err)}
+			}
 			return c19Res{ok: err == nil, reenc: enc, after: enc, hasAfter: true}
 		}})
 	add(c19Target{scalarAt: []int{0}, name: "sr25519.NewKeyPairFromBytes", size: 96, canonical: true,
